@@ -32,6 +32,7 @@
 #include <numeric>
 #include <vector>
 #include <string>
+#include <stdexcept>
 #include "soplex/spxdefines.h"
 
 #ifdef SOPLEX_WITH_GMP
@@ -199,6 +200,14 @@ inline Rational ratFromString(const char* desc)
             res = Rational(desc + 1);
          else
             res = Rational(desc);
+
+         // the string conversion accepts "n/0", which is not a number (and undefined behaviour in every later operation)
+         if(denominator(res) == 0)
+         {
+            res = 0;
+            throw std::runtime_error(std::string("The string \"") + desc +
+                                     std::string("\" has a zero denominator."));
+         }
       }
       /* case 2: string is given as base-10 decimal number */
       else
